@@ -86,6 +86,7 @@ class DM14Server:
             self._ca.unsubscribe(self._parse_dm16)
             self.state = ResponseState.IDLE
             self.sa = None
+            self.address = None
 
     def parse_dm14(
         self, priority: int, pgn: int, sa: int, timestamp: int, data: bytearray
@@ -162,6 +163,7 @@ class DM14Server:
             case ResponseState.WAIT_OPERATION_COMPLETE:
                 self.state = ResponseState.IDLE
                 self.sa = None
+                self.address = None
                 self._ca.unsubscribe(self.parse_dm14)
 
             case _:
